@@ -15,16 +15,16 @@ pub const NESTING_BOUND: usize = 200;
 /// /repo's working tree so that a plan generator never reads the file system.
 pub fn corpus() -> Vec<(&'static str, &'static [u8])> {
     vec![
-        ("tests/data/axioms_is_true.txt", include_bytes!("/repo/tests/data/axioms_is_true.txt").as_slice()),
-        ("tests/data/test_fixpoint.txt", include_bytes!("/repo/tests/data/test_fixpoint.txt").as_slice()),
-        ("tests/data/set_abc.txt", include_bytes!("/repo/tests/data/set_abc.txt").as_slice()),
-        ("tests/data/mu_empty.txt", include_bytes!("/repo/tests/data/mu_empty.txt").as_slice()),
-        ("tests/data/nu_empty.txt", include_bytes!("/repo/tests/data/nu_empty.txt").as_slice()),
-        ("examples/fixedpoint.txt", include_bytes!("/repo/examples/fixedpoint.txt").as_slice()),
-        ("examples/fp.txt", include_bytes!("/repo/examples/fp.txt").as_slice()),
-        ("examples/state_machine.txt", include_bytes!("/repo/examples/state_machine.txt").as_slice()),
-        ("examples/cliques.txt", include_bytes!("/repo/examples/cliques.txt").as_slice()),
-        ("examples/4_queens.txt", include_bytes!("/repo/examples/4_queens.txt").as_slice()),
+        ("tests/data/axioms_is_true.txt", include_bytes!(concat!(env!("RSBDD_REPO_DIR"), "/tests/data/axioms_is_true.txt")).as_slice()),
+        ("tests/data/test_fixpoint.txt", include_bytes!(concat!(env!("RSBDD_REPO_DIR"), "/tests/data/test_fixpoint.txt")).as_slice()),
+        ("tests/data/set_abc.txt", include_bytes!(concat!(env!("RSBDD_REPO_DIR"), "/tests/data/set_abc.txt")).as_slice()),
+        ("tests/data/mu_empty.txt", include_bytes!(concat!(env!("RSBDD_REPO_DIR"), "/tests/data/mu_empty.txt")).as_slice()),
+        ("tests/data/nu_empty.txt", include_bytes!(concat!(env!("RSBDD_REPO_DIR"), "/tests/data/nu_empty.txt")).as_slice()),
+        ("examples/fixedpoint.txt", include_bytes!(concat!(env!("RSBDD_REPO_DIR"), "/examples/fixedpoint.txt")).as_slice()),
+        ("examples/fp.txt", include_bytes!(concat!(env!("RSBDD_REPO_DIR"), "/examples/fp.txt")).as_slice()),
+        ("examples/state_machine.txt", include_bytes!(concat!(env!("RSBDD_REPO_DIR"), "/examples/state_machine.txt")).as_slice()),
+        ("examples/cliques.txt", include_bytes!(concat!(env!("RSBDD_REPO_DIR"), "/examples/cliques.txt")).as_slice()),
+        ("examples/4_queens.txt", include_bytes!(concat!(env!("RSBDD_REPO_DIR"), "/examples/4_queens.txt")).as_slice()),
     ]
 }
 
